@@ -208,10 +208,15 @@ impl Prop for C16Prop {
             main_text = format!("// caf\u{e9} \u{a9} \u{fc}ber\n{main_text}");
             encoding = "windows-1252".to_string();
         }
+        // a text that begins with U+FEFF *is* a file with a BOM: describe it as such
+        let (main_text, forced_bom) = match main_text.strip_prefix('\u{feff}') {
+            Some(rest) => (rest.trim_start_matches('\u{feff}').to_string(), true),
+            None => (main_text, false),
+        };
         let mut files = vec![FileSpec {
             path: format!("src/main.{}", *t.pick(&["pas", "pas", "dpr", "dpk", "PAS"])),
             text: main_text,
-            bom: t.chance(1, 4),
+            bom: t.chance(1, 4) || forced_bom,
             kind: "good".into(),
         }];
         let n_sib = t.below(4);
